@@ -16,7 +16,11 @@ arrays and objects the Go code gets there.
   finite list of in-range swaps** on the slice (whichever algorithm chose them, inspecting the heap as it likes).
 * `tx.Copy()` is `wire.MsgTx.Copy` of the bchd dependency (external, assumed): it allocates a new `MsgTx`, new pointer
   arrays with `len = cap = ` the old length, a new `TxIn` / `TxOut` object per element and copies all script bytes
-  into fresh memory — a deep copy.  Modelled as allocation of fresh objects holding the same values.
+  into fresh memory — a deep copy of everything this model has.  Modelled as allocation of fresh objects holding the
+  same values.  Two things of the real `wire.TxOut` are NOT in the model: it also carries `TokenData` (CashTokens), and
+  `Copy` shares the `TokenData.Commitment` byte slice with the original (msgtx.go: `Commitment: oldTxOut.TokenData.
+  Commitment`).  txsort neither reads nor writes token data, so the frame theorems are unaffected, but "no write through
+  the result reaches the original" is claimed for pointer arrays, objects and scripts only — not for commitments.
 -/
 namespace Bch.Model.TxSortHeap
 open Bch Bch.Model.TxSort
